@@ -67,3 +67,10 @@ Proof. eexists. split; [vm_compute; reflexivity|]. split; [reflexivity|]. vm_com
 (* the solver hypotheses are satisfiable: exhaustive search over the variables of the formula is sound and complete *)
 Example C01_solver_exists : solver_ok brute.
 Proof. split; [exact brute_sound|exact brute_complete]. Qed.
+
+(* the soundness half of the property oracle (Run/SatRun.v `sound_check`, evaluated on the clause list the implementation returned,
+   at every size) is a decision procedure for the specification, not a sampling test *)
+From CG Require Run.SatRun Run.SatRunProofs.
+Theorem C01_oracle_sound : ∀ c G, SatRun.sound_check c G = true → closed c → ∀ a, sat a G → consistent c (a ∘ VN).
+Proof. exact SatRunProofs.sound_check_spec. Qed.
+Print Assumptions C01_oracle_sound.
